@@ -63,7 +63,7 @@ GROUP = dict(
 )
 
 ENGINE = dict(name="SpeedProfile", path="specs/SpeedProfile.tla", serves_properties=["C02", "C13"],
-              kind_free_text="TLA+ spec (Level A Canon/Safe/Exact/Canonical; Level B transcription of insert_speed/add_speeds), "
+              kind_free_text="TLA+ spec (Level A Canon/Safe/Exact/Canonical over a train make-up; Level B transcription of insert_speed/add_speeds), "
                              "TLC exhaustive on bounded layouts, every configuration replayed into real PathTpc/TrainSimBuilder/"
                              "SpeedLimitTrainSim, recorded profiles validated by TLC (SpeedProfileTrace.tla)")
 _NOTE = ("Trusted: TLC, the JSON projection of PathTpc (serde), the harness materialisation of the abstract layout as a "
@@ -73,8 +73,9 @@ _TECH = "TLA+ spec + TLC model checking + spec->impl replay + TLC trace validati
 MANIFEST = {
     "C02": dict(engine="SpeedProfile", design_ref="3 (C02 / C13)", technique=_TECH,
                 text="TLC checks Safe on every reachable state of the bounded SpeedProfile model (all sorted restriction lists per "
-                     "link, head/tail sets, gates, 1-3 links) and re-evaluates Safe on the profile the real code built for every "
-                     "one of those configurations through five construction paths, plus seeded random layouts.",
+                     "link, head/tail sets, gates, 1-3 links, train make-ups of several car types whose length / maximum speed / mass / "
+                     "brakes / axles the spec derives itself) and re-evaluates Safe on the profile the real code built for every one of "
+                     "those configurations through seven construction paths (incl. Network::set_speed_set_for_train_type), plus seeded random layouts.",
                 note=_NOTE),
     "C13": dict(engine="SpeedProfile", design_ref="3 (C02 / C13)", technique=_TECH,
                 text="Same runs as C02; TLC evaluates Exact (pointwise equality with the canonical minimum at every breakpoint), "
